@@ -65,175 +65,206 @@ def main_match(b):
     return pat, it, body, ms[0]
 
 
+# ----------------------------------------------------------------------------------------------------------------------
+# The vocabulary is decided by evaluating `parse` (lib/abseval.py with concrete strings; anstyle's functions followed into their
+# bodies) on every word of a closed vocabulary and comparing with a model of the documented syntax: the words of the
+# specification, EVERY string literal the crate's non-test code contains (so an extra alias or a misspelt keyword is itself a
+# test input), each with `no` / `no-` prefixes and in other letter cases.  A match on literals, a const table searched with
+# `find`, a prefix-stripping recogniser all evaluate to the same function on that vocabulary.
+
+def model(text, bit):
+    """The documented meaning of a git colour description: ("ok", fg, bg, effects) or ("err", kind, word)."""
+    fg = bg = None
+    n = 0
+    eff = 0
+    for word in text.split():
+        w = word.lower()
+        neg = None
+        for pre in ("no-", "no"):
+            if w.startswith(pre) and w[len(pre):] in ATTRS:
+                neg = w[len(pre):]
+                break
+        if w in ATTRS:
+            eff |= bit[ATTRS[w]]
+            continue
+        if neg is not None:
+            eff &= ~bit[ATTRS[neg]]
+            continue
+        col = "?"
+        if w in ("normal", "-1"):
+            col = None
+        elif w in NAMES:
+            col = ("ansi", NAMES[w])
+        elif w.startswith("#"):
+            h = w[1:]
+            if len(h) in (3, 6) and all(c in "0123456789abcdef" for c in h):
+                t = len(h) // 3
+                col = ("rgb", int(h[:t], 16), int(h[t:2 * t], 16), int(h[2 * t:], 16))
+        elif w.isascii() and w.isdigit() and int(w) <= 255:
+            col = ("idx", int(w))
+        if col == "?":
+            return ("err", "UnknownWord", word)
+        if n == 0:
+            fg = col
+        elif n == 1:
+            bg = col
+        else:
+            return ("err", "ExtraColor", word)
+        n += 1
+    return ("ok", fg, bg, eff)
+
+
+def observed(facts, text):
+    import abseval
+    ev = abseval.Evaluator(facts, "anstyle_git", {}, inline_crates=("anstyle",))
+    ev.concrete_strings = True
+    r = ev.call_fn("anstyle_git", G + "parse", [("str", text)])
+
+    def colour(v):
+        if v == ("none",):
+            return None
+        c = v[1]
+        if c[0] == "ctor" and c[1].endswith("Color::Ansi"):
+            return ("ansi", c[2][1].split("::")[-1])
+        if c[0] == "ctor" and c[1].endswith("Color::Ansi256"):
+            return ("idx", c[2][2][1])
+        if c[0] == "ctor" and c[1].endswith("Color::Rgb"):
+            return ("rgb",) + tuple(x[1] for x in c[2][2:])
+        raise Unrecognised(f"colour value {str(c)[:60]}")
+    if r[0] == "ok" and r[1][0] == "rec":
+        st = r[1][1]
+        if st.get("underline") != ("none",):
+            raise Unrecognised("an underline colour is set")
+        return ("ok", colour(st["fg"]), colour(st["bg"]), st["effects"][2][1])
+    if r[0] == "err" and r[1][0] == "ctor" and r[1][2][0] == "rec":
+        payload = r[1][2][1]
+        if payload.get("style") != ("str", text):
+            return ("err", r[1][1].split("::")[-1] + "<style not the input>", payload.get("word", ("str", "?"))[1])
+        return ("err", r[1][1].split("::")[-1], payload.get("word", ("str", "?"))[1])
+    raise Unrecognised(f"parse evaluates to {str(r)[:80]}")
+
+
+def code_literals(facts):
+    out = set()
+    for b in facts.bodies("anstyle_git"):
+        if "hir" not in b or "::test" in b["path"] or b.get("expn") or "Display" in b["path"] or "Debug" in b["path"]:
+            continue
+        for n in hir.walk(b.get("hir_raw", b["hir"])):
+            if n.get("k") == "lit" and n.get("t") == "str" and isinstance(n.get("v"), str):
+                out.add(n["v"])
+    return out
+
+
+def vocabulary_cases(facts):
+    lits = {w for w in code_literals(facts) if w and not any(c.isspace() for c in w) and "+" not in w}
+    base = set(ATTRS) | set(NAMES) | {"normal", "-1", "0", "7", "255", "256", "300", "-2", "00", "#fff", "#12aBcd", "#12", "#1234", "#ggg", "#12345g",
+                                     "#\u00e91", "#\u20ac", "purple", "brightred", "underline", "nonormal", "no", "no-", "nono-bold", "1e1", "0x10", "bold,", "b"} | lits
+    words = set()
+    for w in base:
+        for v in (w, "no" + w, "no-" + w, w.upper(), w.capitalize()):
+            words.add(v)
+    cases = {w for w in words}
+    cases |= {"", "   ", "\tbold\n  ul\r", "bold\u00a0ul", "bold\u2003red"}
+    allattrs = " ".join(ATTRS)
+    for w in ATTRS:
+        cases |= {f"{allattrs} no{w}", f"{allattrs} no-{w}", f"no{w} {w}", f"{w} no{w} {w}", f"NO-{w.upper()} {allattrs}"}
+    cols = list(NAMES)[:3] + ["normal", "-1", "7", "#abc", "#a1b2c3"]
+    for x in cols:
+        for y in cols:
+            cases.add(f"{x} {y}")
+            cases.add(f"bold {x} ul {y} noul")
+    for x in ("red", "normal", "9", "#fff"):
+        cases |= {f"red blue {x}", f"normal -1 {x} bold", f"red {x} blue green"}
+    cases |= {"red purple", "bold strike nonsense red", "red green bold extra"}
+    return sorted(cases), lits
+
+
 def rule_keywords(facts, rep):
     b = facts.body("anstyle_git", G + "parse")
     rep.fn(b["path"])
-    pat, it, body, m = main_match(b)
-    # words: split_whitespace(s), lower-cased
-    rep.check(hir.is_call(hir.simp(it), "split_whitespace") and hir.is_local(hir.simp(it)["args"][0], b["params"][0]["name"]), "keywords", b["path"],
-              "words-by-split_whitespace", "any whitespace separates words", loc(b))
-    # the scrutinee is word.to_lowercase() viewed as a &str (as_ref / as_str / deref), held in a temporary or not
-    R = hir.Resolver(b["hir"])
-    sc = hir.peel(R.res(hir.peel(m["scrut"])))
-    inner = sc
-    for _ in range(3):
-        if inner.get("k") == "call" and inner.get("args") and hir.callee(inner).split("::")[-1] in ("as_ref", "as_str", "deref", "borrow"):
-            inner = hir.peel(R.res(hir.peel(inner["args"][0])))
-    rep.check(hir.is_call(inner, "to_lowercase") and hir.is_local(inner["args"][0], pat.get("name")), "keywords", b["path"], "matched-lower-cased",
-              "keywords and colour names are matched on word.to_lowercase() (any letter case)", loc(b, m))
-    got = {}
-    default = None
-    for a in m["arms"]:
-        lits = str_pats(a["pat"])
-        if lits is None:
-            default = a
+    bit = {n_: v for n_, v, _ in ac.effect_consts(facts)}
+    cases, lits = vocabulary_cases(facts)
+    bad = {}
+    bad_texts = set()
+    n_ok = 0
+    for text in cases:
+        want = model(text, bit)
+        try:
+            got = observed(facts, text)
+        except Unrecognised as ex:
+            got = ("not-evaluable", str(ex)[:80])
+        if got == want:
+            n_ok += 1
             continue
-        st = hir.stmts_of(a["body"])
-        op = eff = None
-        if len(st) == 1 and hir.simp(st[0]).get("k") == "assign" and hir.is_local(hir.simp(st[0])["l"], "effects"):
-            r = hir.simp(hir.simp(st[0])["r"])
-            if hir.is_call(r, "anstyle::effect::Effects::insert", "anstyle::effect::Effects::remove") and hir.is_local(r["args"][0], "effects"):
-                op = hir.callee(r).split("::")[-1]
-                eff = hir.last_seg(hir.def_path(r["args"][1]))
-        for l in lits:
-            got[l] = (op, eff)
-    want = {}
+        words = text.lower().split()
+        key = next((w for w in words if any(w in (a_, "no" + a_, "no-" + a_) for a_ in ATTRS)), None)
+        if key is None:
+            key = next((w for w in words if w in NAMES or w in ("normal", "-1")), words[0] if words else "")
+        bad.setdefault(key, f"parse({text!r}) = {got}, documented meaning {want}")
+        bad_texts.add(text)
+    rep.count(len(cases))
     for w, e in ATTRS.items():
-        want[w] = ("insert", e)
-        want["no" + w] = ("remove", e)
-        want["no-" + w] = ("remove", e)
-    for w in sorted(set(want) | set(got)):
-        rep.check(got.get(w) == want.get(w), "keywords", b["path"], f"'{w}'",
-                  f"git: '{w}' means {want.get(w)}; the parser does {got.get(w)}", loc(b, m))
-        rep.count()
-    rep.check(default is not None and default["pat"].get("k") == "pbind", "keywords", b["path"], "other-words-go-to-colour-parsing", "", loc(b, m))
+        for form in (w, "no" + w, "no-" + w):
+            rep.check(form not in bad, "keywords", b["path"], f"'{form}'",
+                      f"git: '{form}' {'sets' if form == w else 'clears'} {e}; {bad.get(form, '')}", loc(b))
+    others = {k: v for k, v in bad.items() if not any(k in (a_, "no" + a_, "no-" + a_) for a_ in ATTRS) and k not in NAMES and k not in ("normal", "-1")}
+    rep.check(not others, "keywords", b["path"], "other-words-go-to-colour-parsing",
+              f"every other word of the vocabulary ({len(cases)} descriptions evaluated, {len(lits)} literals taken from the code) is a colour or an "
+              f"error naming it: {list(others.values())[:2]}", loc(b))
+    ws = {"", "   ", "\tbold\n  ul\r", "bold\u00a0ul", "bold\u2003red"}
+    rep.check(ws <= set(cases) and not (ws & bad_texts), "keywords", b["path"], "words-by-split_whitespace",
+              f"any whitespace separates words (tab, CR/LF, NBSP, EM SPACE, leading/trailing blanks): {sorted(ws & bad_texts)}", loc(b))
+    cased = {t for t in bad_texts if t != t.lower()}
+    rep.check(not cased, "keywords", b["path"], "matched-lower-cased",
+              f"upper-case and capitalised forms of every word mean the same ({n_ok} of {len(cases)} descriptions agree with the model)", loc(b))
+    rule_keywords.bad = bad
 
 
 def rule_colours(facts, rep):
     b = facts.body("anstyle_git", G + "parse_color")
     rep.fn(b["path"])
-    ms = [n for n in hir.walk(b["hir"]) if n.get("k") == "match" and hir.is_local(n["scrut"], b["params"][0]["name"])]
-    if len(ms) != 1:
-        raise AnchorMissing("parse_color: name match")
-    got = {}
-    for a in ms[0]["arms"]:
-        lits = str_pats(a["pat"])
-        if lits is None:
-            continue
-        v = hir.simp(a["body"])
-        val = "?"
-        if hir.is_def(v, "Option::None"):
-            val = None
-        elif v.get("ctor", "").endswith("Option::Some"):
-            x = hir.simp(v["args"][0])
-            if hir.is_call(x, "Into<U>>::into") and x.get("ty") == "anstyle::color::Color":
-                val = hir.last_seg(hir.def_path(x["args"][0]))
-        for l in lits:
-            got[l] = val
+    bad = getattr(rule_keywords, "bad", None)
+    if bad is None:
+        raise Unrecognised("the vocabulary was not evaluated")
     want = dict(NAMES)
     want["normal"] = None
     want["-1"] = None
-    for w in sorted(set(want) | set(got)):
-        rep.check(w in got and got.get(w) == want.get(w, "?"), "colours", b["path"], f"'{w}'", f"git: '{w}' is {want.get(w, 'not a colour name')}; parser: {got.get(w, 'missing')}", loc(b, ms[0]))
+    for w in sorted(want):
+        rep.check(w not in bad, "colours", b["path"], f"'{w}'", f"git: '{w}' is {want[w] or 'no colour (the default)'}; {bad.get(w, '')}", loc(b))
         rep.count()
-    # decimal: word.parse::<u8>() → Color::from(n)  (256-colour index)
-    dec = [n for n in hir.walk(b["hir"]) if hir.is_call(n, "<anstyle::color::Color as core::convert::From<u8>>::from")]
-    ok = False
-    if len(dec) == 1:
-        frames = [fr for (x, fr) in hir.visit_with_conds(b["hir"], lambda x: x is dec[0])][0]
-        for f in frames:
-            if f.get("kind") == "if" and f["val"] and hir.simp(f["expr"]).get("k") == "letexpr":
-                init = hir.simp(hir.simp(f["expr"])["init"])
-                if hir.is_call(init, "core::str::<impl str>::parse") and hir.is_local(init["args"][0], b["params"][0]["name"]) and "u8" in init.get("ty", ""):
-                    ok = True
-    rep.check(ok, "colours", b["path"], "0-255→palette-index", "a decimal word is a 256-colour index via u8::from_str", loc(b))
-    tail = hir.simp(hir.stmts_of(b["hir"])[-1])
-    rep.check(tail.get("ctor", "").endswith("Result::Ok") and hir.is_local(tail["args"][0], "color"), "colours", b["path"], "Ok(color)", "", loc(b))
+    nums = {k: v for k, v in bad.items() if k and (k[0].isdigit() or k[0] in "-#")}
+    rep.check(not nums, "colours", b["path"], "0-255→palette-index", f"a decimal word 0..=255 is a 256-colour index, anything above an unknown word {list(nums.values())[:2]}", loc(b))
+    rep.ok("colours", b["path"], "Ok(color)", "colour results are compared in the evaluated descriptions", loc(b))
 
 
 def rule_slots(facts, rep):
+    """The colour slots, the error wiring and the attribute set semantics, read off the same evaluated descriptions (colour pairs and
+    triples, colours mixed with attributes, unknown words before / between / after colours) compared with the model."""
     b = facts.body("anstyle_git", G + "parse")
-    pat, it, body, m = main_match(b)
-    word = pat.get("name")
-    default = [a for a in m["arms"] if str_pats(a["pat"]) is None][0]
-    w = default["pat"]["name"]
-    # the fallback arm, decided case by case (parse_color Ok / Err  x  number of colours seen so far 0 / 1 / 2) on the one
-    # structural path feasible for the case — `if let .. else`, `match` with an early return, an increment shared by two arms ...
-    paths = hir.enumerate_paths(default["body"])
-    O = hir.Origins(default["body"])
-    pcs = [n for n in hir.walk(default["body"]) if hir.is_call(n, G + "parse_color")]
-    ok_pc = len(pcs) == 1 and hir.is_local(pcs[0]["args"][0], w)
-    rep.check(ok_pc, "slots", b["path"], "colour-iff-parse_color-Ok", "", loc(b, default))
-    slots = {}
-    un = None
-    for res in ("Ok", "Err"):
-        for n_seen in (0, 1, 2):
-            def val(e, res=res, n_seen=n_seen):
-                e = hir.simp(e)
-                if ok_pc and e is pcs[0]:
-                    return ("enum", "core::result::Result::" + res)
-                if e.get("k") == "local" and e["name"] == "num_colors":
-                    return ("int", n_seen)
-                if e.get("k") == "lit" and e.get("t") == "int":
-                    return ("int", e["v"])
-                return None
-            feas = [p for p in paths if hir.path_feasible(p, val)]
-            if len(feas) != 1:
-                slots[(res, n_seen)] = f"{len(feas)} paths"
-                continue
-            p = feas[0]
-            setters, incs, ret = [], 0, None
-            for t in p.trace:
-                if t[0] == "assign":
-                    n = t[1]
-                    if n.get("k") == "assign" and hir.is_local(n["l"], "style"):
-                        r = hir.simp(n["r"])
-                        if r.get("k") == "call" and hir.is_local(r["args"][0], "style"):
-                            src, proj = O.of(r["args"][1])
-                            setters.append((hir.callee(r).split("::")[-1], ok_pc and src is pcs[0] and proj == ("Ok",)))
-                        else:
-                            setters.append(("?", False))
-                    elif n.get("k") == "assignop" and n["op"] == "AddAssign" and hir.is_local(n["l"], "num_colors") and hir.lit_val(n["r"]) == 1:
-                        incs += 1
-                    else:
-                        setters.append(("store:" + hirpp.expr(n)[:30], False))
-            if p.exit == "ret":
-                ret = error_payload({"k": "ret", "e": p.value}, b, word) if p.value is not None else None
-            slots[(res, n_seen)] = (setters, incs, p.exit, ret)
-    fg = slots.get(("Ok", 0))
-    bg = slots.get(("Ok", 1))
-    ex = slots.get(("Ok", 2))
-    rep.check(isinstance(fg, tuple) and fg[0] == [("fg_color", True)] and fg[1] == 1 and fg[2] != "ret", "slots", b["path"], "first-colour→fg", f"{fg}", loc(b, default))
-    rep.check(isinstance(bg, tuple) and bg[0] == [("bg_color", True)] and bg[1] == 1 and bg[2] != "ret", "slots", b["path"], "second-colour→bg", f"{bg}", loc(b, default))
-    rep.check(isinstance(ex, tuple) and ex[2] == "ret" and ex[3] == ("ExtraColor", True, True) and not ex[0], "slots", b["path"], "third-colour→ExtraColor{original-word}",
-              f"(variant, style=s, word=original word): {ex}", loc(b, default))
-    uns = [slots.get(("Err", k)) for k in (0, 1, 2)]
-    rep.check(all(isinstance(u, tuple) and u[2] == "ret" and u[3] == ("UnknownWord", True, True) and not u[0] and not u[1] for u in uns), "slots", b["path"],
-              "non-colour→UnknownWord{original-word}", f"{uns[0]}", loc(b, default))
-    lets = {s["pat"]["name"]: s["init"] for s in hir.stmts_of(b["hir"]) if s.get("k") == "let" and s["pat"].get("k") == "pbind"}
-    rep.check(hir.lit_val(lets.get("num_colors")) == 0 and hir.is_call(hir.simp(lets.get("effects", {})), "anstyle::effect::Effects::new")
-              and hir.is_call(hir.simp(lets.get("style", {})), "anstyle::style::Style::new"), "slots", b["path"], "starts-empty", "", loc(b))
-    top = hir.stmts_of(b["hir"])
-    # after the loop: the result is Ok(style | effects) — as `style |= effects; Ok(style)` or in one expression
-    last = hir.simp(top[-1]) if top else {}
-    ok = False
-    if last.get("ctor", "").endswith("Result::Ok"):
-        v = hir.simp(last["args"][0])
-        prev = hir.simp(top[-2]) if len(top) >= 2 else {}
-        if hir.is_local(v, "style") and v.get("k") == "local":
-            ok = prev.get("k") == "assignop" and prev["op"] == "BitOrAssign" and hir.is_local(prev["l"], "style") and hir.is_local(prev["r"], "effects")
-        elif (v.get("k") == "bin" and v.get("op") == "BitOr") or hir.is_call(v, "bitor"):
-            l, r = (v["l"], v["r"]) if v.get("k") == "bin" else (v["args"][0], v["args"][1])
-            ok = hir.is_local(l, "style") and hir.is_local(r, "effects")
-        # no other merge of the effects into the style inside the loop
-        merges = [n for n in hir.walk(b["hir"]) if n.get("k") == "assignop" and hir.is_local(n["l"], "style") and n is not prev]
-        ok = ok and not merges
-    rep.check(ok, "slots", b["path"], "effects-ORed-once-after-the-loop", "attributes are a set built sequentially (a later negation wins), merged at the end", loc(b))
-    # num_colors / effects only written where seen above
-    inside = {id(n) for n in hir.walk(default["body"])}
-    writers = [n for n in hir.walk(b["hir"]) if n.get("k") in ("assign", "assignop") and hir.local_name(n["l"]) in ("num_colors",) and id(n) not in inside]
-    rep.check(not writers, "slots", b["path"], "counter-incremented-only-on-accepted-colours",
-              f"{len(writers)} writes of num_colors outside the colour arm (inside it: exactly one increment per accepted colour, decided above)", loc(b))
+    bit = {n_: v for n_, v, _ in ac.effect_consts(facts)}
+    groups = {
+        "first-colour→fg": ["red", "7", "#abc", "normal", "bold red ul"],
+        "second-colour→bg": ["red blue", "normal red", "-1 7", "red #a1b2c3", "bold red ul green noul", "7 normal"],
+        "third-colour→ExtraColor{original-word}": ["red blue green", "red blue Normal", "normal -1 9 bold", "red #FFF blue green", "red blue #fFf"],
+        "unknown→UnknownWord{original-word}": ["purple", "red Purple", "red blue foo", "bold strike Nonsense red", "256", "red 300 blue", "#12345g", "no", "bold, red"],
+        "colour-iff-parse_color-Ok": ["red", "nored", "no-red", "#12", "normal", "nonormal", "-2"],
+        "starts-from-empty-style-and-no-colours": ["", "   ", "nobold", "no-ul noitalic"],
+        "effects-ORed-once-after-the-loop": ["bold ul", "bold nobold", "nobold bold", "bold red nobold ul", "ul no-ul ul no-ul", "bold dim nobold", "dim bold nodim",
+                                             "bold italic strike reverse blink dim ul nostrike"],
+        "counter-incremented-only-on-accepted-colours": ["bold red ul blue", "nobold red no-ul blue italic", "red bold blue ul green", "bold ul italic red"],
+    }
+    for key, texts in groups.items():
+        bad = []
+        for text in texts:
+            want = model(text, bit)
+            try:
+                got = observed(facts, text)
+            except Unrecognised as ex:
+                got = ("not-evaluable", str(ex)[:80])
+            if got != want:
+                bad.append(f"parse({text!r}) = {got}, documented meaning {want}")
+            rep.count()
+        rep.check(not bad, "slots", b["path"], key, f"{len(texts)} descriptions evaluated against the model {bad[:2]}", loc(b))
 
 
 def error_payload(stmt, b, word):
